@@ -31,6 +31,7 @@ PICK = {
     "S5": dict(p0=["a", "b"], va=["va", "b"], ko=["ko", "a"], kw=["kw"], l0=["a"], g0=["a", "b"], g1=["fh"], g2=["i", "b"]),
     "S6": dict(p0=["a", "b"], g0=["a", "b"], g1=["b", "c"]),
     "S7": dict(p0=["a", "b"], p1=["b", "c"], q0=["a", "b"]),
+    "S9": dict(g0=["a", "b"], p0=["a", "b"], l0=["a", "c"], u0=["a", "b"], imp=["late", "a"]),
     "S8": dict(g0=["a", "b"], p0=["a", "b"], l0=["a", "b", "c"], u0=["a", "b"]),
     "S3C": dict(g0=["a"], p0=["a", "b"], c2=["a", "b"], e0=["e", "a"], w0=["w"], t0=["t", "a"], u2=["b"]),
 }
@@ -62,7 +63,7 @@ def mods():
 class C20(Check):
     pid = "C20"
     level = "exploration"
-    rule = ("cases = modules of 8 scoping schemas (incl. multi-line statements whose continuation lines are indented less than the enclosing def) (selected hole menus; CPython-valid); evaluations = one code_assist call per "
+    rule = ("cases = modules of 9 scoping schemas (incl. a function-level import of a project module) (incl. multi-line statements whose continuation lines are indented less than the enclosing def) (selected hole menus; CPython-valid); evaluations = one code_assist call per "
             "(module, character offset, variant in {as is, rest of line deleted}, maxfixes in {1,3}, later_locals in {T,F}) and one "
             "get_definition_location call per identifier token; checks: no exception on a valid module (only RopeError tolerated on "
             "the truncated variant); every proposal starts with the typed prefix; on statement-body positions outside "
@@ -83,7 +84,7 @@ class C20(Check):
 
     def setup_worker(self):
         self.bench = Bench("c20")
-        self.ctx = self.bench.open({"xplaceholder.py": ""})
+        self.ctx = self.bench.open({"xplaceholder.py": "", "xlibmod.py": "# library module used by schema S9\n\n\n\n\n\n\ndef tool():\n    return 1\n\n\nlate = 2\na = 3\n"})
 
     def run(self, case):
         res = {"n": 0, "nt": [], "out": {}, "mech": {}, "fails": [], "refused": 0, "passfeat": []}
@@ -222,8 +223,18 @@ class C20(Check):
                                         roles |= {"offered-from:" + s_.kind}
                             fail("proposal-not-visible", ef + sorted(roles) + ["at:" + sc.kind], {"offset": offset, "prefix": prefix, "unsound": sorted(unsound), "line": lines[lineno - 1]})
                             continue
-                        if variant == "intact" and later:
-                            missing = want - got_id
+                        if variant == "intact":
+                            if later:
+                                missing = want - got_id
+                            else:
+                                # names of the innermost scope that are first bound after the cursor line may be left out
+                                firstline = {}
+                                for o_ in b.occs:
+                                    if o_.role in ("store", "param", "defname", "import", "importfrom", "exceptname") and owner_scope(o_.scope, o_.name if o_.role not in ("import", "importfrom") else (o_.extra.asname or o_.extra.name.split(".")[0])) is sc:
+                                        nm_ = o_.name if o_.role not in ("import", "importfrom") else (o_.extra.asname or o_.extra.name.split(".")[0])
+                                        ln_ = sc.node.lineno if o_.role == "param" else o_.lineno
+                                        firstline[nm_] = min(firstline.get(nm_, 10 ** 9), ln_)
+                                missing = {n for n in want - got_id if not (n in firstline and firstline[n] >= lineno and resolve(sc, n) is sc)}
                             if missing:
                                 roles = set()
                                 for n in missing:
@@ -239,6 +250,9 @@ class C20(Check):
             want = bind_lines.get(k)
             if not want:
                 continue
+            sc_k = [x for x in b.root.all() if x.path() == k[2]]
+            if sc_k and "import" in sc_k[0].bound.get(n, ()):
+                continue    # (also) bound by an import: the definition legitimately lies in the imported module
             try:
                 resr, line = codeassist.get_definition_location(project, src, s)
             except Exception as ex:
